@@ -95,16 +95,23 @@ def run(program, res, tier):
     d2 = depsmod.Deps(g2, hd.params())
     p = hd.params()[0]
     rets = g2.returns()
-    if len(rets) != 1:
-        raise AnalysisError("hash_data_frame: expected a single return")
-    roots = d2.roots_at(rets[0], rets[0].stmt.value)
-    for want, why in ((f"{p}.shape", "frames of different shape could share a key"),
-                      (f"{p}.columns", "frames that differ only in column names would share a key"),
-                      ("call:hash_pandas_object", "frame contents would not be hashed")):
-        if depsmod.has_root(roots, want):
-            res.ok("C25-S1", f"hash_data_frame depends on {want}")
-        else:
-            res.fail_at("C25-S1", hd, f"hash-lacks:{want}", f"the hash string does not depend on {want}: {why}", rets[0].stmt)
+    if not rets:
+        raise AnalysisError("hash_data_frame: no return")
+    for i, rt in enumerate(rets):
+        roots = d2.roots_at(rt, rt.stmt.value)
+        for want, why in ((f"{p}.shape", "frames of different shape could share a key"),
+                          (f"{p}.columns", "frames that differ only in column names would share a key"),
+                          ("call:hash_pandas_object", "the contents of the frame as it is now would not be hashed")):
+            if depsmod.has_root(roots, want):
+                res.ok("C25-S1", f"hash_data_frame return #{i + 1} depends on {want}")
+            else:
+                res.fail_at("C25-S1", hd, f"hash-lacks:{want}",
+                            f"a return of hash_data_frame (`{unparse(rt.stmt.value)[:50]}`) does not depend on {want}: {why}", rt.stmt)
+        state = sorted(r for r in roots if r.startswith("g:_") or (r.startswith("g:") and r[2:] in hd.module.consts))
+        if state:
+            res.fail_at("C25-S1", hd, f"hash-reads-module-state:{state[0]}",
+                        f"a return of hash_data_frame depends on module-level state {state}: the key of a frame would depend on "
+                        f"earlier calls, not only on its current contents", rt.stmt)
     hp = [c for c in ast.walk(hd.node) if isinstance(c, ast.Call) and isinstance(c.func, ast.Attribute) and c.func.attr == "hash_pandas_object"]
     if not hp:
         raise AnalysisError("hash_data_frame: hash_pandas_object call not found")
